@@ -11,6 +11,62 @@ Bad(e) ==
          LET t == Core(e.ast) IN
          Failed({<<"C01:nullable", e.nullable = Nullable(t)>>,
                  <<"C01:str_in_re", \A j \in 1..Len(e.words) : RunOk(t, e.words[j], e.res[j])>>})
+    [] e.op = "empty" ->
+         LET t == Core(e.ast)
+             wOk == e.has_w => /\ Accepts(t, e.w) /\ e.w_in_re /\ e.w_acc /\ e.w_good
+                               /\ \A j \in 1..Len(e.w) : e.w[j] \in 0..MaxChar
+         IN
+         IF e.exact THEN
+            LET ne == NonEmpty(t) IN
+            Failed({<<"C05:is_empty_re", e.empty = ~ne>>,
+                    <<"C05:get_string_none_iff_empty", e.has_w = ne>>,
+                    <<"C05:witness_is_member", wOk>>,
+                    <<"C17:get_string_good", e.has_w => e.w_good>>})
+         ELSE \* too costly for the exact closure: consistency and the witness only
+            Failed({<<"C05:is_empty_re", (e.has_w /\ Accepts(t, e.w)) => ~e.empty>>,
+                    <<"C05:get_string_none_iff_empty", e.has_w = ~e.empty>>,
+                    <<"C05:witness_is_member", wOk>>})
+    [] e.op = "start" ->
+         LET t  == Core(e.ast)
+             R  == TermReps(t)
+             q0 == RInit(t)
+             sw(c) == NonEmptyFrom(t, R, RStep(t, q0, c))          \* = StartsWith(t, c)
+             nr == Len(e.ranges)
+             inClass(cid, x) == IF cid >= 0 THEN cid < nr /\ e.ranges[cid + 1][1] <= x /\ x <= e.ranges[cid + 1][2]
+                                ELSE \A a \in 1..nr : ~(e.ranges[a][1] <= x /\ x <= e.ranges[a][2])
+             covered == \A j \in 1..Len(e.chars) : \E a \in 1..nr : e.ranges[a][1] <= e.chars[j] /\ e.chars[j] <= e.ranges[a][2]
+             validId(cid) == IF cid >= 0 THEN cid < nr ELSE ~covered
+             truth == [j \in 1..Len(e.chars) |-> sw(e.chars[j])]
+         IN
+         Failed({<<"C18:start_char", \A j \in 1..Len(e.chars) : e.res[j] = truth[j]>>,
+                 <<"C18:start_class",
+                    \A k \in 1..Len(e.classes) :
+                       LET cl == e.classes[k] IN
+                       IF validId(cl.cid)
+                       THEN /\ cl.valid
+                            /\ cl.res \in {"ok:true", "ok:false"}
+                            /\ \A j \in 1..Len(e.chars) : inClass(cl.cid, e.chars[j]) => (cl.res = "ok:true") = truth[j]
+                       ELSE ~cl.valid /\ cl.res = "err:BadClassId">>})
+    [] e.op \in {"closure", "closure_big"} ->
+         LET n == e.len
+             res(name) == LET k == CHOOSE k \in 1..Len(e.tries) : e.tries[k].n = name IN e.tries[k]
+         IN
+         Failed({<<"C19:terminates", e.terminated>>,
+                 <<"C19:first_is_e", e.first_is_root>>,
+                 <<"C19:no_duplicates", e.distinct = e.len /\ e.stable>>,
+                 <<"C19:closed_under_char_derivative", e.op = "closure" => (e.nnodes = e.niter /\ e.niter = e.len)>>,
+                 <<"C19:every_item_is_a_derivative_of_an_earlier_one",
+                    e.op = "closure" => \A k \in 2..e.niter : \E a \in 1..(k - 1) : \E j \in 1..e.nreps : e.delta[a][j] = k>>,
+                 <<"C19:try_compile_bound",
+                    /\ res("0").res = "none"
+                    /\ res("L-1").res = "none"
+                    /\ res("L").res = "some" /\ res("L").ns = n
+                    /\ res("L+1").res = "some" /\ res("L+1").ns = n
+                    /\ res("max").res = "some" /\ res("max").ns = n>>,
+                 <<"C19:compile_num_states", e.compile_ns = n>>})
+    [] e.op = "incl" ->
+         Failed({<<"C16:included_in_sound", e.res => SubLang(Core(e.a), Core(e.b))>>,
+                 <<"C16:reflexive", e.same => e.res>>})
     [] OTHER -> {"unknown_event"}
 
 Init == TInit
